@@ -57,6 +57,22 @@ func ruleE3(c *Ctx) {
 		per := 0
 		for _, b := range f.Blocks {
 			for _, in := range b.Instrs {
+				if mu, isMU := in.(*ssa.MapUpdate); isMU {
+					// writing into a map held by a shared object
+					if u, ok := mu.Map.(*ssa.UnOp); ok && u.Op == token.MUL {
+						if mfa, ok := u.X.(*ssa.FieldAddr); ok {
+							if tn, shared := declaredInSharedPkg(mfa.X.Type()); shared {
+								if _, fresh := rootOf(mfa.X).(*ssa.Alloc); !fresh {
+									n++
+									per++
+									c.fail("E3", fmt.Sprintf("%s|map update %s.%s#%d", shortName(f), tn, fieldName(mfa), per), c.L.Pos(instrPos(in)),
+										fmt.Sprintf("%s writes into map %s.%s of an object it did not allocate: a result memoised for one statement is replayed for another (e.g. under a different BITS mode)", shortName(f), tn, fieldName(mfa)))
+								}
+							}
+						}
+					}
+					continue
+				}
 				st, ok := in.(*ssa.Store)
 				if !ok {
 					continue
